@@ -102,7 +102,7 @@ def capObs (op idx client kind c k plen n p : String) : Unit × String :=
     | none => bad idx
   | _, _, _, _ => bad idx
 
-def step (_ : Unit) (ws : List String) : Unit × String :=
+def stepCore (_ : Unit) (ws : List String) : Unit × String :=
   let bad (idx : String) := ((), idx ++ " bad-op")
   match ws with
   | ["dec", idx, c, k, fmt, p] =>
@@ -319,6 +319,13 @@ def step (_ : Unit) (ws : List String) : Unit × String :=
     | _, _, _, _, _, _, _ => bad idx
   | _ :: idx :: _ => bad idx
   | _ => ((), "bad-op")
+
+/-- `frag`: how the bytes of a request arrive is not the model's business — the same answer as `net`. -/
+def step (u : Unit) (ws : List String) : Unit × String :=
+  match ws with
+  | ["frag", idx, srv, _cuts, kind, route, c, k, plen, n, p] =>
+    stepCore u ["net", idx, srv, "raw", kind, route, c, k, plen, n, p]
+  | _ => stepCore u ws
 
 end Repe.Driver.Numeric
 
